@@ -668,3 +668,202 @@ T('buf-loader-except-exception', ['C03', 'C07'],
   (A, "            except BaseException:  # noqa\n                logger.exception(\"Failed to get args from: %r\", iterable)", "            except Exception:  # noqa\n                logger.exception(\"Failed to get args from: %r\", iterable)"))
 T('buf-done-before-clear', ['C07', 'C03'],
   (A, "            self.event.clear()  # Ensure cleared in case previous cancel\n            self.q.task_done()", "            self.q.task_done()\n            self.event.clear()  # Ensure cleared in case previous cancel"))
+
+
+# ---------------------------------------------------------------------------
+# helpers: C16 - C20
+# ---------------------------------------------------------------------------
+B('it-async-sentinel-not-in-finally', ['C16'], ['C16-TA1'],
+  (A, """        try:
+            for x in iterable:
+                put(x)
+        finally:
+            put(_DONE)""", """        for x in iterable:
+            put(x)
+        put(_DONE)"""))
+B('it-sync-sentinel-not-in-finally', ['C16'], ['C16-TA1'],
+  (A, """        try:
+            async for x in iterable:
+                put(x)
+        finally:
+            put(_DONE)  # type: ignore""", """        async for x in iterable:
+            put(x)
+        put(_DONE)  # type: ignore"""))
+B('it-async-truthiness-test', ['C16'], ['C16-TA2'],
+  (A, "        while (i := await q.get()) is not _DONE:", "        while (i := await q.get()) != _DONE:"))
+B('it-sync-filtered-yield', ['C16'], ['C16-TA2'],
+  (A, "            while (i := q.get()) is not _DONE:\n                yield i", "            while (i := q.get()) is not _DONE:\n                if i is not None:\n                    yield i"))
+B('it-async-future-not-awaited', ['C16'], ['C16-TA3'],
+  (A, "            yield i  # type: ignore\n        await future  # Bubble any errors", "            yield i  # type: ignore"))
+B('it-sync-result-not-taken', ['C16'], ['C16-TA3'],
+  (A, """        try:
+            while (i := q.get()) is not _DONE:
+                yield i
+        finally:
+            future.result()""", """        while (i := q.get()) is not _DONE:
+            yield i"""))
+B('it-async-inline-iterators', ['C16'], ['C16-TA4'],
+  (A, "    if not isinstance(iterable, Iterator):\n        for x in iterable:", "    if isinstance(iterable, Iterator):\n        for x in iterable:"))
+B('it-async-direct-put', ['C16'], ['C16-TA5'],
+  (A, """    put = partial(
+        loop.call_soon_threadsafe,
+        q.put_nowait,  # type: ignore[arg-type]
+        # ^ Type stubs don't understand partial will pass args later
+    )""", """    put = q.put_nowait"""))
+B('it-sync-asyncio-queue', ['C16'], ['C16-TA5'],
+  (A, "    q: 'queue.Queue[T]' = queue.Queue()", "    q: 'queue.Queue[T]' = aio.Queue()"))
+B('it-async-pool-not-scoped', ['C16'], ['C16-TA6'],
+  (A, """    with ThreadPoolExecutor(1) as pool:
+        future = loop.run_in_executor(pool, _queue_elements)
+        while (i := await q.get()) is not _DONE:
+            yield i  # type: ignore
+        await future  # Bubble any errors""", """    pool = ThreadPoolExecutor(1)
+    future = loop.run_in_executor(pool, _queue_elements)
+    while (i := await q.get()) is not _DONE:
+        yield i  # type: ignore
+    await future  # Bubble any errors"""))
+B('it-async-double-put', ['C16'], ['C16-TA7'],
+  (A, "            for x in iterable:\n                put(x)\n        finally:\n            put(_DONE)\n\n    q: 'aio.Queue", "            for x in iterable:\n                put(x)\n                put(x)\n        finally:\n            put(_DONE)\n\n    q: 'aio.Queue"))
+B('aw-inline-on-foreign-loop', ['C17'], ['C17-R1'],
+  (A, "    if main_loop is loop:\n        return await aw", "    if main_loop is not loop:\n        return await aw"))
+B('aw-runs-running-loop', ['C17'], ['C17-R1'],
+  (A, "    if loop.is_running():\n        return await run_aw_threadsafe(aw, loop)", "    if not loop.is_running():\n        return await run_aw_threadsafe(aw, loop)"))
+B('aw-no-closed-check', ['C17'], ['C17-R1'],
+  (A, "    if loop.is_closed():\n        raise RuntimeError(\"Target loop is closed!\")\n", ""))
+B('aw-run-without-lock', ['C17'], ['C17-R2'],
+  (A, """        with _get_loop_lock(loop):
+            aio.set_event_loop(loop)
+            return loop.run_until_complete(aw)""", """        aio.set_event_loop(loop)
+        return loop.run_until_complete(aw)"""))
+B('aw-run-forever-wrong-lock', ['C17'], ['C17-R2'],
+  (A, """        with _get_loop_lock(loop):
+            aio.set_event_loop(loop)
+            loop.run_forever()""", """        with _get_loop_lock(aio.get_event_loop()):
+            aio.set_event_loop(loop)
+            loop.run_forever()"""))
+B('aw-lock-store-outside-creation-lock', ['C17'], ['C17-R3'],
+  (A, """    with _LOOP_LOCKS_CREATE_LOCK:  # Ensure atomic creation
+        try:  # Handle case where another thread acquired lock first
+            return _LOOP_LOCKS[key]
+        except KeyError:  # FIRST! Create the lock
+            lock = _LOOP_LOCKS[key] = Lock()
+            # Ensure the lock is cleaned up when the loop is destroyed
+            finalize(loop, _LOOP_LOCKS.pop, key, None)
+            return lock""", """    lock = _LOOP_LOCKS[key] = Lock()
+    # Ensure the lock is cleaned up when the loop is destroyed
+    finalize(loop, _LOOP_LOCKS.pop, key, None)
+    return lock"""))
+B('aw-lock-no-reprobe', ['C17'], ['C17-R3'],
+  (A, """        try:  # Handle case where another thread acquired lock first
+            return _LOOP_LOCKS[key]
+        except KeyError:  # FIRST! Create the lock
+            lock = _LOOP_LOCKS[key] = Lock()
+            # Ensure the lock is cleaned up when the loop is destroyed
+            finalize(loop, _LOOP_LOCKS.pop, key, None)
+            return lock""", """        lock = _LOOP_LOCKS[key] = Lock()
+        # Ensure the lock is cleaned up when the loop is destroyed
+        finalize(loop, _LOOP_LOCKS.pop, key, None)
+        return lock"""))
+B('aw-threadsafe-on-caller-loop', ['C17'], ['C17-R4'],
+  (A, "    return await aio.wrap_future(run_coro_ts(coro, loop))", "    return await aio.wrap_future(run_coro_ts(coro, aio.get_running_loop()))"))
+B('aw-swallows-exception', ['C17'], ['C17-R4'],
+  (A, "    if main_loop is loop:\n        return await aw", "    if main_loop is loop:\n        try:\n            return await aw\n        except Exception:\n            return None"))
+B('aw-loop-in-thread-returns-early', ['C17'], ['C17-R5'],
+  (A, "    while not loop.is_running():\n        sleep(0)  # Force switching to other threads\n", ""))
+B('aw-stop-direct', ['C17'], ['C17-R6'],
+  (A, "        loop.call_soon_threadsafe(loop.stop)\n        future.result()", "        loop.stop()\n        future.result()"))
+B('aw-stop-no-join', ['C17'], ['C17-R6'],
+  (A, "        loop.call_soon_threadsafe(loop.stop)\n        future.result()  # Wait for loop to exit and reveal errors", "        loop.call_soon_threadsafe(loop.stop)"))
+B('split-source-after-tee', ['C18'], ['C18-R1', 'C18-R3'],
+  (I, "    return compress(i1, c1), compress(i2, map(op.not_, c2))", "    return compress(iterable, c1), compress(i2, map(op.not_, c2))"))
+B('split-second-map-condition', ['C18'], ['C18-R2', 'C18-R3'],
+  (I, """    if callable(condition):
+        iterable, ci = tee(iterable)
+        condition = map(condition, ci)
+    i1, i2 = tee(iterable)
+    c1, c2 = tee(condition)
+    return compress(i1, c1), compress(i2, map(op.not_, c2))""", """    i1, i2 = tee(iterable)
+    if callable(condition):
+        i1, j1 = tee(i1)
+        i2, j2 = tee(i2)
+        return compress(i1, map(condition, j1)), compress(i2, map(op.not_, map(condition, j2)))
+    c1, c2 = tee(condition)
+    return compress(i1, c1), compress(i2, map(op.not_, c2))"""))
+B('split-same-condition-copy', ['C18'], ['C18-R1'],
+  (I, "    return compress(i1, c1), compress(i2, map(op.not_, c2))", "    return compress(i1, c1), compress(i2, map(op.not_, c1))"))
+B('split-swapped-results', ['C18'], ['C18-R3'],
+  (I, "    return compress(i1, c1), compress(i2, map(op.not_, c2))", "    return compress(i1, map(op.not_, c1)), compress(i2, c2)"))
+B('split-eager', ['C18'], ['C18-R4'],
+  (I, "    i1, i2 = tee(iterable)\n", "    i1, i2 = tee(list(iterable))\n"))
+B('exhaust-first-only', ['C18'], ['C18-R5'],
+  (I, "    deque(iterable, maxlen=0)", "    deque(iterable, maxlen=1)"))
+B('exhaust-returns', ['C18'], ['C18-R5'],
+  (I, "    deque(iterable, maxlen=0)", "    return deque(iterable, maxlen=0)"))
+B('parse-rsplit', ['C19'], ['C19-R1'],
+  (P, "k, v = pair.split(sep, 1)", "k, v = pair.rsplit(sep, 1)"))
+B('parse-split-all', ['C19'], ['C19-R1'],
+  (P, "k, v = pair.split(sep, 1)", "k, v = pair.split(sep)[:2]"))
+B('parse-split-fixed-sep', ['C19'], ['C19-R1'],
+  (P, "k, v = pair.split(sep, 1)", "k, v = pair.split('=', 1)"))
+B('parse-missing-sep-keyerror', ['C19'], ['C19-R2'],
+  (P, "                raise ValueError(f\"{pair} is not like KEY{sep}VALUE\") from e", "                raise KeyError(f\"{pair} is not like KEY{sep}VALUE\") from e"))
+B('parse-missing-sep-accepted', ['C19'], ['C19-R2'],
+  (P, "                raise ValueError(f\"{pair} is not like KEY{sep}VALUE\") from e", "                k, v = pair, None"))
+B('parse-eval-default', ['C19'], ['C19-R3'],
+  (P, "parse: Callable[[str], Any] = ast.literal_eval,", "parse: Callable[[str], Any] = eval,"))
+B('parse-eval-fallback', ['C19'], ['C19-R3'],
+  (P, "            except:  # noqa\n                pass\n        return x", "            except:  # noqa\n                try:\n                    return eval(x)\n                except Exception:\n                    pass\n        return x"))
+B('parse-non-strings', ['C19'], ['C19-R4'],
+  (P, "        if isinstance(x, str):\n            try:\n                return parse(x)", "        if True:\n            try:\n                return parse(x)"))
+B('parse-only-valueerror', ['C19'], ['C19-R4'],
+  (P, "            except:  # noqa\n                pass\n        return x", "            except ValueError:  # noqa\n                pass\n        return x"))
+B('parse-keys-ignored', ['C19'], ['C19-R5'],
+  (P, "            return key, try_parse(value)", "            return try_parse(key), try_parse(value)"))
+B('parse-values-unparsed-without-keys', ['C19'], ['C19-R5'],
+  (P, "            return key, try_parse(value)", "            return key, value"))
+B('parse-mapping-bypasses', ['C19'], ['C19-R6'],
+  (P, "    try:\n        items = items.items()  # type: ignore\n    except AttributeError:\n        pass\n\n    return dict(map(parse_pair, items))",
+   "    if hasattr(items, 'items'):\n        return dict(items)\n\n    return dict(map(parse_pair, items))"))
+B('gather-no-return-exceptions', ['C20'], ['C20-R1'],
+  (A, "    for res in await aio.gather(*aws, return_exceptions=True):", "    for res in await aio.gather(*aws):"))
+B('gather-exact-type', ['C20'], ['C20-R3'],
+  (A, "        if isinstance(res, only):\n            yield res", "        if type(res) is only:\n            yield res"))
+B('gather-sorted', ['C20'], ['C20-R2'],
+  (A, "    for res in await aio.gather(*aws, return_exceptions=True):", "    for res in sorted(await aio.gather(*aws, return_exceptions=True), key=repr):"))
+B('gather-as-completed', ['C20'], ['C20-R1'],
+  (A, """    for res in await aio.gather(*aws, return_exceptions=True):
+        if isinstance(res, only):
+            yield res""", """    for fut in aio.as_completed(list(aws)):
+        try:
+            await fut
+        except only as res:
+            yield res"""))
+B('raise-first-drops-filter', ['C20'], ['C20-R4'],
+  (A, "    async for exc in gather_excs(aws, only):\n        raise exc", "    async for exc in gather_excs(aws):\n        raise exc"))
+B('raise-first-returns-exc', ['C20'], ['C20-R4'],
+  (A, "    async for exc in gather_excs(aws, only):\n        raise exc", "    async for exc in gather_excs(aws, only):\n        return exc"))
+B('gather-yields-type', ['C20'], ['C20-R3'],
+  (A, "        if isinstance(res, only):\n            yield res", "        if isinstance(res, only):\n            yield type(res)"))
+
+T('it-rename-sentinel', ['C16', 'C03'], (A, "_DONE", "_END_OF_STREAM", 'all'))
+T('it-test-flipped', ['C16'],
+  (A, "        while (i := await q.get()) is not _DONE:\n            yield i  # type: ignore", "        while True:\n            i = await q.get()\n            if i is _DONE:\n                break\n            yield i  # type: ignore"))
+T('aw-dispatch-reordered', ['C17'],
+  (A, """    if loop.is_running():
+        return await run_aw_threadsafe(aw, loop)
+
+    if loop.is_closed():
+        raise RuntimeError("Target loop is closed!")
+""", """    if loop.is_closed():
+        raise RuntimeError("Target loop is closed!")
+
+    if loop.is_running():
+        return await run_aw_threadsafe(aw, loop)
+"""))
+T('split-rename-locals', ['C18'], (I, "i1", "left", 'all'), (I, "c2", "negsel", 'all'))
+T('parse-keyword-maxsplit', ['C19'], (P, "pair.split(sep, 1)", "pair.split(sep, maxsplit=1)"))
+T('parse-except-exception', ['C19'], (P, "            except:  # noqa\n                pass\n        return x", "            except Exception:  # noqa\n                pass\n        return x"))
+T('gather-via-variable', ['C20'],
+  (A, "    for res in await aio.gather(*aws, return_exceptions=True):", "    results = await aio.gather(*aws, return_exceptions=True)\n    for res in results:"))
+T('raise-first-keyword', ['C20'],
+  (A, "    async for exc in gather_excs(aws, only):", "    async for exc in gather_excs(aws, only=only):"))
